@@ -151,6 +151,27 @@ def call_spec_fn(self, name, e, st):
     if name == "same":    # same(a, b): reference identity
         a, b = self.ev1(e.args[0], st)[0], self.ev1(e.args[1], st)[0]
         return bool_val(a.z == b.z)
+    if name in ("last_result", "last_arg", "called_after"):
+        q = e.args[0].value
+        rec = st.ghost.get("$last:" + q)
+        if name == "called_after":
+            other = st.ghost.get("$last:" + e.args[1].value)
+            return bool_val(rec is not None and (other is None or rec[0] > other[0]))
+        if rec is None:
+            # no such call on this path: an unconstrained value, so that the obligation mentioning it fails
+            return Val(Int, fresh("no_such_call", z3.IntSort()))
+        if name == "last_result":
+            return rec[2]
+        return rec[1][e.args[1].value]
+    if name == "wf":      # wf(obj): the class invariant of obj's class holds for obj
+        v = self.ev1(e.args[0], st)[0]
+        if not (isinstance(v, Val) and isinstance(v.t, Obj)):
+            raise ContractError("wf() needs an object")
+        zs = []
+        for inv in self.reg.class_invariants(v.t.cls):
+            s2 = State(dict(st.env, self=v), st.heap, st.pc, st.next_ref, st.ghost, st.labels)
+            zs.append(self.truth(self.ev1(parse_expr(inv), s2)[0], s2))
+        return bool_val(z3.And(*zs) if zs else z3.BoolVal(True))
     if name == "ssum":
         v = self.ev1(e.args[0], st)[0]
         from .engine import ssum_fn
@@ -179,7 +200,7 @@ def _mentions(z, idset):
     return False
 
 
-SPEC_NAMES = {"old", "at", "result", "forall", "exists", "implies", "iff", "ite", "is_none", "val", "fresh", "same",
+SPEC_NAMES = {"wf", "last_result", "last_arg", "called_after", "old", "at", "result", "forall", "exists", "implies", "iff", "ite", "is_none", "val", "fresh", "same",
               "ssum"}
 
 
@@ -591,7 +612,9 @@ def call_builtin(self, name, args, kwargs, st, node):
             if not (isinstance(probe, Val) and probe.t == Int):
                 raise Untranslatable("sorted of non-int sequence")
             et = Int
-        r = fresh("sorted", z3.SeqSort(z3.IntSort()))
+        src = x if isinstance(x, Val) and isinstance(x.t, Seq) else self.materialise(view, st, Int)
+        sf = z3.Function("sorted_fn", z3.SeqSort(z3.IntSort()), z3.SeqSort(z3.IntSort()))
+        r = sf(src.z)
         n = view.length
         i, j = fresh("i", z3.IntSort()), fresh("j", z3.IntSort())
         st.assume(z3.Length(r) == n)
@@ -600,8 +623,8 @@ def call_builtin(self, name, args, kwargs, st, node):
                                             z3.Exists([j], z3.And(0 <= j, j < n, r[i] == view.at(j).z)))))
         st.assume(z3.ForAll([j], z3.Implies(z3.And(0 <= j, j < n),
                                             z3.Exists([i], z3.And(0 <= i, i < n, r[i] == view.at(j).z)))))
-        self.assume_log("sorted(): result is an ordered sequence of the same length with the same set of values "
-                        "(multiplicities not modelled)")
+        self.assume_log("sorted(): a function of its input giving an ordered sequence of the same length with the "
+                        "same set of values (multiplicities not modelled)")
         yield ("listcomp", Val(Seq(Int), r)), st
         return
     if name == "next":
@@ -963,7 +986,29 @@ def _mixin_contains(self, recv, args, kwargs, st, node):
         yield bool_val(False), o.state
 
 
-MIXINS = {"get": _mixin_get, "__contains__": _mixin_contains}
+def _mixin_pop(self, recv, args, kwargs, st, node):
+    """MutableMapping.pop(key[, default]): value = self[key] (KeyError -> default or re-raise); del self[key]."""
+    cget = self.reg.find_method(recv.t.cls, "__getitem__")
+    cdel = self.reg.find_method(recv.t.cls, "__delitem__")
+    has_default = len(args) > 1 or "default" in kwargs
+    default = args[1] if len(args) > 1 else kwargs.get("default")
+    mark = len(self.raise_buf)
+    outs = list(self.call_contract(cget, [recv, args[0]], {}, st, node))
+    caught = [o for o in self.raise_buf[mark:] if o.exc == "KeyError"]
+    rest = [o for o in self.raise_buf[mark:] if o.exc != "KeyError"]
+    del self.raise_buf[mark:]
+    self.raise_buf.extend(rest)
+    for v, s in outs:
+        for _ in self.call_contract(cdel, [recv, args[0]], {}, s, node):
+            yield v, s
+    for o in caught:
+        if has_default:
+            yield default, o.state
+        else:
+            self.raise_buf.append(o)
+
+
+MIXINS = {"get": _mixin_get, "__contains__": _mixin_contains, "pop": _mixin_pop}
 
 
 # ---------------------------------------------------------------------------------------------- contracts
@@ -1051,6 +1096,16 @@ def call_contract(self, c, args, kwargs, st, node):
         z = self.spec_truth(r, cs)
         self.oblige(f"{site}.pre{k}", st, z, f"precondition of {c.qual}: {r}")
         st.assume(z)
+    extra_reqs = self.c.call_requires.get(c.qual, []) if not self.spec else []
+    if extra_reqs:
+        menv = dict(self.entry.env)
+        menv.update(st.env)
+        menv.update(env)
+        ms = State(menv, st.heap, st.pc, st.next_ref, st.ghost, st.labels)
+        for k, r in enumerate(extra_reqs):
+            self.oblige(f"{site}.callreq{k}", st, self.spec_truth(r, ms, old=self.entry),
+                        f"{self.c.qual} must call {c.qual} with: {r}")
+        self.call_req_sites = getattr(self, "call_req_sites", 0) + 1
     if c.decreases is not None and c.qual == self.c.qual:
         # recursive call: the measure must decrease and stay non-negative
         m_new = self.as_int(self.spec_eval(c.decreases, cs), st).z
@@ -1094,14 +1149,18 @@ def call_contract(self, c, args, kwargs, st, node):
         for post in c.ensures_raise.get(exc, []):
             s_r.assume(self.spec_truth(post, State(env, s_r.heap, s_r.pc, s_r.next_ref, s_r.ghost, s_r.labels), old=pre))
         if not self.spec:
-            self.raise_buf.append(Outcome("raise", s_r, exc=exc))
+            o_r = Outcome("raise", s_r, exc=exc)
+            o_r.site = getattr(self, "cur_site", None)
+            self.raise_buf.append(o_r)
     for exc in c.may_raise:
         s_r = st.copy()
         self.havoc_modifies(c, env, s_r)
         for post in c.ensures_raise.get(exc, []):
             s_r.assume(self.spec_truth(post, State(env, s_r.heap, s_r.pc, s_r.next_ref, s_r.ghost, s_r.labels), old=pre))
         if not self.spec:
-            self.raise_buf.append(Outcome("raise", s_r, exc=exc))
+            o_r = Outcome("raise", s_r, exc=exc)
+            o_r.site = getattr(self, "cur_site", None)
+            self.raise_buf.append(o_r)
     for z in conds:
         st.assume(z3.Not(z))
     # normal exit
@@ -1120,6 +1179,11 @@ def call_contract(self, c, args, kwargs, st, node):
         raise Untranslatable(f"{c.qual} is a generator: iterate over it with call_generator")
     for p in posts:
         st.assume(self.spec_truth(p, ps, old=pre, result=res))
+    if not self.spec:
+        seq = st.ghost.get("$seq", 0) + 1
+        st.ghost = dict(st.ghost)
+        st.ghost["$seq"] = seq
+        st.ghost["$last:" + c.qual] = (seq, [env.get(n) for n in [a.arg for a in fnode.args.posonlyargs + fnode.args.args]], res)
     yield res, st
 
 
@@ -1184,9 +1248,21 @@ def loc_of(self, m, st):
     raise ContractError(f"modifies entry not understood: {m}")
 
 
+def all_keys_of(self, t):
+    """Heap arrays holding values of type t (for an object type: one array per declared field)."""
+    if isinstance(t, Obj):
+        ks = []
+        for c in self.reg.mro(t.cls):
+            spec = self.reg.classes.get(c)
+            if spec:
+                ks += [("fld", c, f, ft) for f, ft in list(spec.fields.items()) + list(spec.ghost_fields.items())]
+        return ks
+    return type_heap_keys(t)
+
+
 def havoc_loc(self, loc, st):
     if loc[0] == "all":
-        for k in type_heap_keys(loc[1]):
+        for k in self.all_keys_of(loc[1]):
             self.heap.set(st, k, fresh("hv", self.heap.key_sort(k)))
     elif loc[0] == "contents":
         v = loc[1]
